@@ -736,17 +736,15 @@ impl Drop for ExitHook {
 }
 
 fn root_from_ctx(t: &Tables, slot: u32, name: &str, ctx: Option<SpanContext>, w3c: bool) -> Result<ObsVal, String> {
+    // what the downstream side ends up with: the context itself, or its traceparent round trip
+    let ctx = match ctx {
+        Some(c) if w3c => SpanContext::decode_w3c_traceparent(&c.encode_w3c_traceparent()),
+        other => other,
+    };
     let obs = ctx_of(ctx);
     let span = match ctx {
         None => Span::noop(),
-        Some(c) => {
-            let c = if w3c {
-                SpanContext::decode_w3c_traceparent(&c.encode_w3c_traceparent()).ok_or("traceparent round trip failed")?
-            } else {
-                c
-            };
-            Span::root(name.to_string(), c)
-        }
+        Some(c) => Span::root(name.to_string(), c),
     };
     put_span(t, slot, span)?;
     Ok(ObsVal::Ctx(obs))
